@@ -216,10 +216,6 @@ Fixpoint strip_ref (t : qty) : qty := match t with QRef u => strip_ref u | _ => 
 Definition simple_type (t : qty) : bool :=
   match strip_ref t with QPath _ _ false [] => true | _ => false end.
 
-(* C12-tuple: a non-empty tuple expression becomes the type name "tuple" *)
-Definition kf_tuple_payload (s : site) : bool := match pcore s with XTuple (_ :: _) => true | _ => false end.
-(* C12-path: a qualified path expression (enum variant, associated const) becomes its last segment *)
-Definition kf_path_payload (s : site) : bool := match pcore s with XPath (_ :: _ :: _) => true | _ => false end.
 (* C12-name: a variable without symbol-table entry becomes its own name *)
 Definition kf_name_fallback (s : site) : bool :=
   match pcore s with XPath [x] => match lookup x (s_sy s) with None => true | Some _ => false end | _ => false end.
@@ -247,19 +243,16 @@ Definition kf_scope (s : site) : bool :=
                  | _, _ => false end
   | _ => false end.
 Definition kf_payload (s : site) : bool :=
-  kf_tuple_payload s || kf_path_payload s || kf_name_fallback s || kf_last_segment s || kf_ctor_guess s || kf_scope s.
+  kf_name_fallback s || kf_last_segment s || kf_ctor_guess s || kf_scope s.
 
 Fixpoint count_name (n : str) (l : list str) : nat :=
   match l with [] => 0 | x :: r => (if str_eqb n x then 1 else 0) + count_name n r end.
 Fixpoint dedup (l : list str) : list str :=
   match l with [] => [] | x :: r => if existsb (str_eqb x) r then dedup r else x :: dedup r end.
 Definition site_names (ss : list site) : list str := map s_name ss.
-(* C12-dup: the same name emitted at two sites gives two exports *)
-Definition kf_dup_name (names : list str) (n : str) : bool := 2 <=? count_name n names.
-(* C12-ident: ':' and '/' are copied into the function identifier *)
-Definition ident_breaker (c : ascii) : bool := Ascii.eqb c ":"%char || Ascii.eqb c "/"%char.
-Definition kf_ident_chars (n : str) : bool := existsb ident_breaker n.
-(* C12-collide: two distinct names with the same function identifier *)
+(* C12-collide: two distinct names with the same function identifier: names that differ only in their
+   non-alphanumeric characters (a-b, a_b, a:b, a/b, a__b) or in the case of a letter that follows one
+   (a-b, a-B) or that starts the name (ab, Ab) *)
 Definition kf_collision (names : list str) (n : str) : bool :=
   existsb (fun m => negb (str_eqb m n) && str_eqb (listener_name m) (listener_name n)) names.
 (* C12-nocmd: a project with events but without any #[tauri::command] generates nothing *)
@@ -363,25 +356,20 @@ Definition explained (p : project) (c : complaint) : bool :=
   let k := fst c in let n := snd c in
   let is (s : string) := str_eqb k (L s) in
   if is "no-events-module" then kf_no_command p
-  else if is "unparseable-events-module" then existsb kf_ident_chars names
-  else if is "duplicate-export" then existsb (kf_dup_name names) names || existsb (kf_collision names) names
-  else if is "duplicate-listener" then kf_dup_name names n
+  else if is "duplicate-export" then existsb (kf_collision names) names
   else if is "identifier-collision" then kf_collision names n
   else if is "payload-type" then existsb (fun s => str_eqb (s_name s) n && kf_payload s) ss
   else false.
 Definition kf_project (p : project) : bool :=
   let ss := project_sites p in
   let names := site_names ss in
-  kf_no_command p || existsb kf_payload ss || existsb kf_ident_chars names
-  || existsb (kf_dup_name names) names || existsb (kf_collision names) names.
+  kf_no_command p || existsb kf_payload ss || existsb (kf_collision names) names.
 (* names of the classes a project lies in, for the run-time matcher *)
 Definition classes_of (p : project) : list str :=
   let ss := project_sites p in
   let names := site_names ss in
   let add (b : bool) (s : string) := if b then [L s] else [] in
-  add (kf_no_command p) "kf_no_command" ++ add (existsb kf_ident_chars names) "kf_ident_chars" ++
-  add (existsb (kf_dup_name names) names) "kf_dup_name" ++ add (existsb (kf_collision names) names) "kf_collision" ++
-  add (existsb kf_tuple_payload ss) "kf_tuple_payload" ++ add (existsb kf_path_payload ss) "kf_path_payload" ++
+  add (kf_no_command p) "kf_no_command" ++ add (existsb (kf_collision names) names) "kf_collision" ++
   add (existsb kf_name_fallback ss) "kf_name_fallback" ++ add (existsb kf_last_segment ss) "kf_last_segment" ++
   add (existsb kf_ctor_guess ss) "kf_ctor_guess" ++ add (existsb kf_scope ss) "kf_scope".
 Local Close Scope string_scope.
